@@ -754,6 +754,7 @@ package spec
 //@   ensures  [C02] switches-to-target @@ result != r ==> freshObj(result) && result.options == r.options
 //@               && result.options.RelativeBase == urlStr(urlScheme(normURI(old(refString(ref)), basePath)), normHost(urlScheme(normURI(old(refString(ref)), basePath)), urlHost(normURI(old(refString(ref)), basePath))),
 //@                     dedupSlashes(urlPath(normURI(old(refString(ref)), basePath))), urlQuery(normURI(old(refString(ref)), basePath)), "")
+//@   ensures  [C02] switched-base-non-empty @@ result != r ==> result.options.RelativeBase != ""
 //@   ensures  [C02] new-root-from-cache @@ result != r ==> (result.root != nil ==> old(cacheDom)[result.options.RelativeBase] && result.root == old(cacheDoc)[result.options.RelativeBase])
 
 //@ func (*schemaLoader).updateBasePath
@@ -858,8 +859,45 @@ package spec
 // the Ref field of the element handed to deref
 //@ define derefRefOf(input interface{}) *Ref = holds(input, "*Schema") ? &asPtr(input, "*Schema").Ref : (holds(input, "*Parameter") ? &asPtr(input, "*Parameter").Ref : (holds(input, "*Response") ? &asPtr(input, "*Response").Ref : &asPtr(input, "*PathItem").Ref))
 
+// ---- resolution scope of children (C02 L1): what a deref left in the holder decides the scope its children are expanded in.
+// piLeft / prLeft: the reference string (and whether it is document-local) that the last deref of a path item / of a
+// parameter or response left in the holder. They are ghost: defined by deref's contract, read by the scope clauses.
+//@ ghost piLeft string
+//@ ghost piLeftLocal bool
+//@ ghost prLeft string
+//@ ghost prLeftLocal bool
+// piRes, piHome / prRes, prHome: the loader and location that deref returned with it (the scope in which the left reference,
+// and the content now in the holder, have to be read)
+//@ ghost piRes *schemaLoader
+//@ ghost piHome string
+//@ ghost prRes *schemaLoader
+//@ ghost prHome string
+// children of a holder whose reference `left` was followed from (res0, base0) are expanded with (res, base):
+// the same loader and base when nothing was followed or the reference stays in the document, otherwise a loader for the
+// target document and the target document's location as base
+// the location of the document a canonical reference x lives in, as transitiveResolver computes it
+//@ define targetDoc(x string) string = urlStr(urlScheme(x), normHost(urlScheme(x), urlHost(x)), dedupSlashes(urlPath(x)), urlQuery(x), "")
+//@ define inScope(res *schemaLoader, base string, res0 *schemaLoader, base0 string, left string, leftLocal bool) bool =
+//@    ((left == "" || leftLocal) ==> res == res0 && base == base0)
+//@    && (left != "" && !leftLocal && res == res0 ==> base == base0 && sameDoc(normURI(left, base0), base0))
+//@    && (res != res0 ==> left != "" && !leftLocal && base == normBase(targetDoc(normURI(left, base0))))
+
+// a hop: the content behind the reference `raw` (document-local or not), followed from (res0, base0), is read with
+// (res, base): the same loader only for a local reference or one that stays in the document of base0, otherwise a loader
+// for the target document; base is the location of the target document
+//@ define hopScopeRaw(res *schemaLoader, base string, res0 *schemaLoader, base0 string, raw string, local bool) bool =
+//@    (local ==> res == res0)
+//@    && (res == res0 && !local ==> sameDoc(normURI(raw, base0), base0))
+//@    && (res == res0 ==> base == remoteOf(canonStr(normURI(raw, base0))))
+//@    && (res != res0 ==> base == normBase(targetDoc(normURI(raw, base0))))
+// the same for a reference x already in canonical form (never local)
+//@ define hopScopeCanon(res *schemaLoader, base string, res0 *schemaLoader, base0 string, x string) bool =
+//@    (res == res0 ==> sameDoc(normURI(x, base0), base0) && base == remoteOf(x))
+//@    && (res != res0 ==> base == normBase(targetDoc(normURI(x, base0))))
+
 //@ func (*schemaLoader).deref
 //@   strings  uninterpreted
+//@   call (*schemaLoader).deref 0 requires [C02] next-hop-in-target-scope @@ hopScopeCanon(arg_r, arg_basePath, r, basePath, canonStr(normURI(old(refString(derefRefOf(input))), basePath)))
 //@   property C04, C08, C18
 //@   appendview
 //@   requires wfResolver(r) && canonBase(basePath)
@@ -868,17 +906,26 @@ package spec
 //@   assumes  [C04] documents-have-paths @@ hasPrefix(urlPath(normURI(refString(derefRefOf(input)), basePath)), "/")
 //@   uses     verifLemmaNormIdem.norm-idempotent(refString(derefRefOf(input)), basePath)
 //@   uses     verifLemmaNormIdem.norm-canonical(refString(derefRefOf(input)), basePath)
-//@   assigns  region(payload(input)), modelmaps(), spare(parentRefs), map(r.context.circulars), ghost(decodedFrom, cacheDom, cacheDoc, calls, failures)
+//@   uses     normalizeBase.keeps-canonical-base(remoteOf(canonStr(normURI(refString(derefRefOf(input)), basePath))))
+//@   uses     normalizeBase.non-empty(remoteOf(canonStr(normURI(refString(derefRefOf(input)), basePath))))
+//@   assigns  region(payload(input)), modelmaps(), spare(parentRefs), map(r.context.circulars), r.options.RelativeBase, ghost(decodedFrom, cacheDom, cacheDoc, calls, failures, piLeft, piLeftLocal, piRes, piHome, prLeft, prLeftLocal, prRes, prHome)
+//@   defines  holds(input, "*PathItem") ==> piLeft == refString(derefRefOf(input)) && piLeftLocal == refLocal(derefRefOf(input)) && piRes == result0 && piHome == result1
+//@   defines  !holds(input, "*PathItem") ==> piLeft == old(piLeft) && piLeftLocal == old(piLeftLocal) && piRes == old(piRes) && piHome == old(piHome)
+//@   defines  holds(input, "*Parameter") || holds(input, "*Response") ==> prLeft == refString(derefRefOf(input)) && prLeftLocal == refLocal(derefRefOf(input)) && prRes == result0 && prHome == result1
+//@   defines  !(holds(input, "*Parameter") || holds(input, "*Response")) ==> prLeft == old(prLeft) && prLeftLocal == old(prLeftLocal) && prRes == old(prRes) && prHome == old(prHome)
 //@   requires holds(input, "*Schema") || holds(input, "*Parameter") || holds(input, "*Response") || holds(input, "*PathItem")
 //@   requires payload(input) != nil
 //@   ensures  kept @@ loaderKept(r, old(r.options), old(r.cache), old(r.context), old(r.options.ContinueOnError), old(r.options.SkipSchemas), old(r.options.AbsoluteCircularRef))
+//@   ensures  result-loader @@ loaderKept(result0, old(r.options), old(r.cache), old(r.context), old(r.options.ContinueOnError), old(r.options.SkipSchemas), old(r.options.AbsoluteCircularRef))
+//@   ensures  [C04] result-base-canonical @@ canonBase(result1)
 //@   ensures  [C08] failures-monotone @@ failures >= old(failures)
-//@   ensures  [C08] strict-propagates @@ old(strict(r)) && failures > old(failures) ==> result != nil
-//@   ensures  [C08] no-spurious-error @@ result != nil ==> failures > old(failures)
-//@   ensures  [C08] continue-silent @@ !old(strict(r)) ==> result == nil
+//@   ensures  [C08] strict-propagates @@ old(strict(r)) && failures > old(failures) ==> result2 != nil
+//@   ensures  [C08] no-spurious-error @@ result2 != nil ==> failures > old(failures)
+//@   ensures  [C08] continue-silent @@ !old(strict(r)) ==> result2 == nil
 //@   ensures  [C18] cache-dom-monotone @@ forall u string :: old(cacheDom[u]) ==> cacheDom[u]
 //@   ensures  [C03] memo-monotone @@ forall k string :: old(has(r.context.circulars, k)) ==> has(r.context.circulars, k)
 //@   ensures  stack-kept @@ forall i int :: 0 <= i && i < len(parentRefs) ==> parentRefs[i] == old(parentRefs[i])
+//@   ensures  loaders-immutable @@ forall l *schemaLoader :: old(allocated(l)) ==> l.root == old(l.root) && l.options == old(l.options) && l.cache == old(l.cache) && l.context == old(l.context)
 
 // a base location as the expander threads it: canonical, and for non-file schemes with a host
 //@ define canonBase(b string) bool = urlOK(b) && urlScheme(b) != "" && hasPrefix(urlPath(b), "/") && pathClean(urlPath(b)) == urlPath(b)
@@ -927,6 +974,7 @@ package spec
 //@        && (stage >= 5 ==> mapDone(s.Properties) && addPropsDone(s)) && (stage >= 6 ==> mapDone(s.PatternProperties)) && (stage >= 7 ==> addItemsDone(s))
 //@ func expandItems
 //@   strings  uninterpreted
+//@   keeps    [C02] piLeft, piLeftLocal, piRes, piHome, prLeft, prLeftLocal, prRes, prHome
 //@   property C04, C08, C03, C18
 //@   requires wfResolver(resolver) && canonBase(basePath) && distinctStr(parentRefs)
 //@   ensures  [C04] result-shape @@ result1 == nil ==> result0 != nil
@@ -962,6 +1010,7 @@ package spec
 //@ define scopeOf(id string, basePath string) string = id != "" ? normURI((hasSuffix(id, "/") ? id + "placeholder.json" : id), basePath) : basePath
 //@ func expandSchema
 //@   strings  uninterpreted
+//@   keeps    [C02] piLeft, piLeftLocal, piRes, piHome, prLeft, prLeftLocal, prRes, prHome
 //@   property C04, C08, C03, C18
 //@   defines  result1 == nil ==> esDone[skey(*result0)]
 //@   defines  forall x int :: old(esDone[x]) ==> esDone[x]
@@ -1080,6 +1129,8 @@ package spec
 
 //@ func expandSchemaRef
 //@   strings  uninterpreted
+//@   call expandSchema 0 requires [C02] target-in-its-document-scope @@ hopScopeRaw(arg_resolver, arg_basePath, resolver, basePath, refStringV(target.Ref), refLocalV(target.Ref))
+//@   keeps    [C02] piLeft, piLeftLocal, piRes, piHome, prLeft, prLeftLocal, prRes, prHome
 //@   property C04, C08, C03, C18
 //@   defines  result1 == nil ==> esDone[skey(*result0)]
 //@   defines  forall x int :: old(esDone[x]) ==> esDone[x]
@@ -1112,6 +1163,10 @@ package spec
 //@   ensures  result.referenceURL.Scheme == urlScheme(normURI(refString(ref), relativeBase)) && result.referenceURL.Host == normHost(urlScheme(normURI(refString(ref), relativeBase)), urlHost(normURI(refString(ref), relativeBase)))
 //@            && result.referenceURL.Path == dedupSlashes(urlPath(normURI(refString(ref), relativeBase))) && result.referenceURL.RawQuery == urlQuery(normURI(refString(ref), relativeBase))
 //@            && result.referenceURL.Fragment == urlFrag(normURI(refString(ref), relativeBase))
+//@   ensures  flags @@ result.HasFullURL == (urlScheme(normURI(refString(ref), relativeBase)) != "" && urlHost(normURI(refString(ref), relativeBase)) != "")
+//@            && result.HasURLPathOnly == (!result.HasFullURL && urlPath(normURI(refString(ref), relativeBase)) != "")
+//@            && result.HasFragmentOnly == (!result.HasFullURL && urlPath(normURI(refString(ref), relativeBase)) == "" && urlQuery(normURI(refString(ref), relativeBase)) == "" && urlFrag(normURI(refString(ref), relativeBase)) != "")
+//@            && result.HasFileScheme == (urlScheme(normURI(refString(ref), relativeBase)) == "file") && result.HasFullFilePath == hasPrefix(urlPath(normURI(refString(ref), relativeBase)), "/")
 
 // the string of the reference denormalizeRef returns is a function of the canonical ref, the root location and the root id
 //@ specfn denormStr(string, string, string) string
@@ -1126,6 +1181,8 @@ package spec
 
 //@ func expandParameterOrResponse
 //@   strings  uninterpreted
+//@   keeps    [C02] piLeft, piLeftLocal, piRes, piHome
+//@   call expandSchema 0 requires [C02] schema-in-holder-scope @@ payload(input) != nil ==> inScope(arg_resolver, arg_basePath, prRes, prHome, prLeft, prLeftLocal)
 //@   property C04, C08, C03, C18
 //@   appendview
 //@   requires wfResolver(resolver) && canonBase(basePath)
@@ -1145,6 +1202,7 @@ package spec
 
 //@ func expandOperation
 //@   strings  uninterpreted
+//@   keeps    [C02] piLeft, piLeftLocal, piRes, piHome
 //@   property C04, C08, C03, C18
 //@   requires wfResolver(resolver) && canonBase(basePath)
 //@   ensures  kept @@ loaderKept(resolver, old(resolver.options), old(resolver.cache), old(resolver.context), old(resolver.options.ContinueOnError), old(resolver.options.SkipSchemas), old(resolver.options.AbsoluteCircularRef))
@@ -1166,6 +1224,8 @@ package spec
 
 //@ func expandPathItem
 //@   strings  uninterpreted
+//@   loop 0 invariant [C02] parameters-in-item-scope @@ inScope(resolver, basePath, piRes, piHome, piLeft, piLeftLocal)
+//@   loop 1 invariant [C02] operations-in-item-scope @@ inScope(resolver, basePath, piRes, piHome, piLeft, piLeftLocal)
 //@   property C04, C08, C03, C18
 //@   requires wfResolver(resolver) && canonBase(basePath)
 //@   requires pathItem != nil ==> sepFrom(pathItem, resolver, nilStrings()) && allocated(pathItem)
